@@ -100,6 +100,22 @@ theorem unknown_absorbs (h : Bytes → HRes) (a : Bytes) (s : S) (he : s.err = n
     rw [stepC_unknown h _ hb hu]
     simp [sapp, app, hu]
 
+/-- the result-gathering part never leaves BUSY for UNKNOWN without rejecting the held event -/
+theorem body_violation_returns_event (h : Bytes → HRes) (q : Lst) (n : Int) (hb : q.ls = .BUSY)
+    (hn : (q.result.length : Int) ≤ n) (hu : (bodyC h q n).p.ls = .UNKNOWN) :
+    Out.rejected q.event ∈ (bodyC h q n).outs ∧ (bodyC h q n).p.event = none := by
+  have hn' : ¬ n - (q.result.length : Int) < 0 := by omega
+  rw [bodyC_eq_K h q n hn'] at hu ⊢
+  unfold bodyK at hu ⊢
+  by_cases hc : n - ((takeBody q n).result.length : Int) = 0
+  · simp only [hc, if_true] at hu ⊢
+    unfold handled at hu ⊢
+    have hev : (takeBody q n).event = q.event := rfl
+    cases hh : h (takeBody q n).result <;> simp [hh, afterResult, hev] at hu ⊢
+  · simp only [hc, if_false] at hu
+    have : (takeBody q n).ls = q.ls := rfl
+    rw [this, hb] at hu; cases hu
+
 /-- `violation_returns_event`, per call body of the parser: whenever a BUSY listener is put into
     UNKNOWN (bad result line, result handler failure) an `EventRejectedEvent` for the event it held is
     emitted and the listener no longer holds it. -/
@@ -116,27 +132,17 @@ theorem violation_returns_event (h : Bytes → HRes) (p : Lst) (hb : p.ls = .BUS
       · simp [hf, hb] at hu
       · rcases Option.eq_none_or_eq_some (headerLenC (p.buf.take pos)) with hh | ⟨m, hh⟩
         · simp [hf, hh, toUnknown]
-        · simp [hf, hh, hb] at hu
-    · have hn : ¬ n - (p.result.length : Int) < 0 := by
-        have : (p.result.length : Int) ≤ n := by simpa [Wf, hr] using hw
-        omega
-      rw [stepC_body h p n hbuf hb hr, bodyC_eq_K h p n hn] at hu ⊢
-      unfold bodyK at hu ⊢
-      by_cases hc : n - ((takeBody p n).result.length : Int) = 0
-      · simp only [hc, if_true] at hu ⊢
-        unfold handled at hu ⊢
-        have hev : (takeBody p n).event = p.event := rfl
-        cases hh : h (takeBody p n).result <;> simp [hh, afterResult, hev] at hu ⊢
-      · simp only [hc, if_false] at hu
-        have : (takeBody p n).ls = p.ls := rfl
-        rw [this, hb] at hu; cases hu
+        · simp only [hf, hh] at hu ⊢
+          have hres : p.result = [] := by simpa [Wf, hr] using hw
+          exact body_violation_returns_event h (afterHeader p pos m) m (by simp [afterHeader, hb])
+            (by simp [afterHeader, hres, headerLenC_nonneg _ _ hh]) hu
+    · rw [stepC_body h p n hbuf hb hr] at hu ⊢
+      exact body_violation_returns_event h p n hb (by simpa [Wf, hr] using hw) hu
 
-/-- the one deviation from the documented automaton (finding F25): a complete zero-length result is
-    not acted on until another byte arrives -/
-theorem zero_length_result_deferred :
-    (feed defaultHandler [82, 69, 83, 85, 76, 84, 32, 48, 10] busy3).p.ls = .BUSY ∧
-    (feed defaultHandler [82, 69, 83, 85, 76, 84, 32, 48, 10] busy3).outs = [] ∧
-    (feed defaultHandler [82, 69, 83, 85, 76, 84, 32, 48, 10, 82] busy3).outs =
+/-- a complete zero-length result is acted on as soon as its header line is there (F25, fixed) -/
+theorem zero_length_result_eager :
+    (feed defaultHandler [82, 69, 83, 85, 76, 84, 32, 48, 10] busy3).p.ls = .ACKNOWLEDGED ∧
+    (feed defaultHandler [82, 69, 83, 85, 76, 84, 32, 48, 10] busy3).outs =
       [.handler (some 3) [], .lstate .BUSY .ACKNOWLEDGED, .rejected (some 3)] := by decide
 
 end Sv.Props.C10
